@@ -139,7 +139,7 @@ theorem C03_file_pass (P : Prims) (hA : P.aead.Lawful) (w salt : Bytes) (reads :
       (res = .ok → ws = fileChunks reads ∧ ∃ cf : Nat → Bytes, (∀ i, (cf i).length = 8) ∧
         F' = encPassMagic ++ salt ++ serialize P.aead (P.kdf w salt) encPassMagic cf 0 (fileChunks reads))) := by
   have h36 : (encPassMagic ++ salt).length = 36 := by simp [gen_passmagic_len, hsalt]
-  rw [passEncrypt_eq P w salt reads hwf] at hhdr
+  rw [passEncrypt_eq_serialize P w salt reads hwf] at hhdr
   simp only [] at hhdr
   rw [List.append_assoc encPassMagic salt, ← List.append_assoc, List.take_left' h36] at hhdr
   obtain ⟨hm, hs, hl⟩ := take_append_split F' encPassMagic salt (by rw [gen_passmagic_len, hsalt]; exact hhdr)
@@ -176,7 +176,7 @@ theorem C03_file_key (P : Prims) (hP : P.Lawful) (s spk r rpk e epk pk d1 d2 msg
   have hml : msg.length = 128 := by
     rw [Noise.writeMessage_length P hP _ _ _ _ _ _ _ _ _ hE hS hw, hK]
   have h132 : (encPrologue ++ msg).length = 132 := by simp [gen_prologue_len, hml]
-  rw [keyEncrypt_eq P s spk rpk e epk pk msg hh reads hwf hw] at hhdr
+  rw [keyEncrypt_eq_serialize P s spk rpk e epk pk msg hh reads hwf hw] at hhdr
   simp only [] at hhdr
   rw [List.take_left' h132] at hhdr
   obtain ⟨hm, hs, hl⟩ := take_append_split F' encPrologue msg (by rw [gen_prologue_len, hml]; exact hhdr)
